@@ -33,6 +33,16 @@ CLAIMED = {
         "technique": "machine-checked proof in Rocq (Coq 8.16): simulation of two state machines + differential correspondence check",
         "design": "DESIGN.md §7 C05",
     },
+    "C15": {
+        "text": "Rocq theorems over the unit model: C15_list (list look-up = history after its last empty assignment, with C15_effective_is_suffix characterising that suffix "
+                "declaratively), C15_last (single-valued look-up = last effective assignment, none after an empty last one), C15_kv (name=value look-up = last value per name among the "
+                "words of the effective assignments), C15_dropins (merging a drop-in appends its history); all for arbitrary unbounded histories. The command-level clause is decided by a "
+                "metamorphic oracle on the implementation (command for a history == command for its effective history; in-process and end to end with real drop-in files), not yet by a theorem "
+                "over a converter model: partial in that respect.",
+        "note": "Trusted: Coq kernel; Spec/Effective.v; extraction; driver; the model of ordered-multimap semantics in Model/Unit.v (validated by differential runs).",
+        "technique": "machine-checked proof in Rocq (Coq 8.16) of the look-up folds + differential correspondence and metamorphic conversion oracle",
+        "design": "DESIGN.md §7 C15",
+    },
     "C20": {
         "text": "Rocq theorem C20_exact: for every code-point string s, the model of the hand-written recogniser accepts s iff s is in the language "
                 "digits+ ('-' digits+)? ('/tcp'|'/udp')? stated declaratively (PortRe); full for the recogniser. Tied to /repo by differential runs "
